@@ -11,12 +11,17 @@ variable {R : Type}
 
 /-! ### weakening the index tables -/
 
-/-- `ix'` knows every charge size `ix` knows -/
-def SizeLe (ix ix' : Index) : Prop := ∀ c d, ix.sizeOf? c = some d → ix'.sizeOf? c = some d
+/-- `ix` is a pruning of `ix'`: same direction, and `ix'` knows every charge size `ix` knows -/
+def SizeLe (ix ix' : Index) : Prop :=
+  ix.dual = ix'.dual ∧ ∀ c d, ix.sizeOf? c = some d → ix'.sizeOf? c = some d
 
-theorem SizeLe.refl (ix : Index) : SizeLe ix ix := fun _ _ h => h
+theorem SizeLe.refl (ix : Index) : SizeLe ix ix := ⟨rfl, fun _ _ h => h⟩
+
+theorem SizeLe.trans {i j k : Index} (h1 : SizeLe i j) (h2 : SizeLe j k) : SizeLe i k :=
+  ⟨h1.1.trans h2.1, fun c d h => h2.2 c d (h1.2 c d h)⟩
 
 theorem dropTo_sizeLe (ix : Index) (S : List Charge) : SizeLe (dropTo ix S) ix := by
+  refine ⟨dropTo_dual ix S, ?_⟩
   intro c d h
   simp only [Index.sizeOf?, dropTo_cm] at h ⊢
   rw [alookup_filter_key ix.cm (fun k => S.contains k) c] at h
@@ -29,6 +34,11 @@ theorem forall₂_refl {α : Type} {r : α → α → Prop} (hr : ∀ x, r x x) 
   induction l with
   | nil => exact .nil
   | cons x xs ih => exact .cons (hr x) ih
+
+theorem forall₂_trans {α : Type} {r : α → α → Prop} (ht : ∀ x y z, r x y → r y z → r x z) :
+    ∀ {l1 l2 l3 : List α}, List.Forall₂ r l1 l2 → List.Forall₂ r l2 l3 → List.Forall₂ r l1 l3
+  | _, _, _, .nil, .nil => .nil
+  | _, _, _, .cons h1 t1, .cons h2 t2 => .cons (ht _ _ _ h1 h2) (forall₂_trans ht t1 t2)
 
 theorem forall₂_append {α β : Type} {r : α → β → Prop} {l1 l2 : List α} {m1 m2 : List β}
     (h1 : List.Forall₂ r l1 m1) (h2 : List.Forall₂ r l2 m2) : List.Forall₂ r (l1 ++ l2) (m1 ++ m2) := by
@@ -53,7 +63,7 @@ theorem blockShape?_weaken {idx idx' : List Index} (h : List.Forall₂ SizeLe id
       | none => rw [hz] at hs; cases hs
       | some d =>
         rw [hz] at hs
-        rw [hx c d hz]
+        rw [hx.2 c d hz]
         simp only [Option.bind_some] at hs ⊢
         cases hr : Arr.blockShape? idx s with
         | none => rw [hr] at hs; cases hs
@@ -84,15 +94,14 @@ theorem leg_sizeLe {A : Arr R} {G : List (List Nat)} {g : Nat} {gaxes : List Nat
     match gaxes, hl with
     | [x], _ => exact .cons (dropTo_sizeLe _ _) .nil
 
-/-- **shapes after the tail of the fused strategy**: every stored block of the unfused product has
-    the shape the free legs of the two operands give for its sector key -/
-theorem FusedCtx.tail_shape [AddCommMonoid R] [Mul R] [Neg R] {A B : Arr R} {xa xb : List Nat}
+/-- **index tables after the tail of the fused strategy**: the indices of the unfused product are
+    prunings (same directions) of the free legs of the two operands -/
+theorem FusedCtx.tail_frame [AddCommMonoid R] [Mul R] [Neg R] {A B : Arr R} {xa xb : List Nat}
     (h : FusedCtx A B xa xb) (c : Arr R)
     (hc : unfuseTail (cfOf A B xa xb) ((freeAxes A.ndim xa).length != 1)
           ((freeAxes B.ndim xb).length != 1) = .ok c) :
-    ∀ K V, alookup c.blocks K = some V →
-      Arr.blockShape? (permuted A.indices (freeAxes A.ndim xa) ++ permuted B.indices (freeAxes B.ndim xb)) K
-        = some V.shape := by
+    List.Forall₂ SizeLe c.indices
+      (permuted A.indices (freeAxes A.ndim xa) ++ permuted B.indices (freeAxes B.ndim xb)) := by
   have hokA := h.pairA.groupsOk
   have hokB := h.pairB.groupsOk
   have gA0 : ([freeAxes A.ndim xa, xa] : List (List Nat))[0]? = some (freeAxes A.ndim xa) := rfl
@@ -137,11 +146,8 @@ theorem FusedCtx.tail_shape [AddCommMonoid R] [Mul R] [Neg R] {A B : Arr R} {xa 
     rw [hcidx, hyidx, hidx]
     simp only [List.take_succ_cons, List.take_zero, List.drop_succ_cons, List.drop_zero, List.drop_nil,
       List.nil_append, List.append_nil, List.cons_append]
-  intro K V hl
-  have hs := Arr.shapesOk_of_validB hcv (K, V) (alookup_mem hl)
-  simp only at hs
-  rw [hci] at hs
-  exact blockShape?_weaken (forall₂_append (leg_sizeLe hokA gA0 S0) (leg_sizeLe hokB gB1 S1)) K _ hs
+  rw [hci]
+  exact forall₂_append (leg_sizeLe hokA gA0 S0) (leg_sizeLe hokB gB1 S1)
 
 theorem permuted_dropUnused_sizeLe (idx : List Index) (S : List Sector) (p : List Nat)
     (hp : ∀ x ∈ p, x < idx.length) :
@@ -155,47 +161,14 @@ theorem permuted_dropUnused_sizeLe (idx : List Index) (S : List Sector) (p : Lis
     rw [dropUnused_getD _ _ (hp x List.mem_cons_self)]
     exact dropTo_sizeLe _ _
 
-/-- **shapes of the fused strategy's result** (abelian operands; all three groups non-empty, at
-    least one aligned block): every stored block has the shape the operands' free legs give -/
-theorem viaFused_general_shape [AddCommMonoid R] [Mul R] [Neg R] (a b : Arr R) (xa xb : List Nat)
-    (ha : a.validB = true) (hb : b.validB = true) (hfa : a.fermi = false) (hfb : b.fermi = false)
-    (hsym : a.sym = b.sym) (hc : ValidP.contractibleB a b xa xb = true)
-    (hnA : xa.Nodup) (hnB : xb.Nodup) (hA : ∀ x ∈ xa, x < a.ndim) (hB : ∀ x ∈ xb, x < b.ndim)
-    (hneK : xa ≠ []) (hneL : freeAxes a.ndim xa ≠ []) (hneR : freeAxes b.ndim xb ≠ [])
-    (hbl : ((dropMisaligned a b xa xb).1.blocks.isEmpty || (dropMisaligned a b xa xb).2.blocks.isEmpty) = false)
-    (c : Arr R)
-    (hc0 : tensordotViaFused a b (freeAxes a.ndim xa) xa xb (freeAxes b.ndim xb) = .ok c) :
-    ∀ K V, alookup c.blocks K = some V →
-      Arr.blockShape? (without a.indices xa ++ without b.indices xb) K = some V.shape := by
-  obtain ⟨n1, n2⟩ := dropMisaligned_ndim a b xa xb
-  have h := ctx_of_dropMisaligned a b xa xb ha hb hfa hfb hsym hc hnA hnB hA hB hneK hneL hneR
-  have hfA := FuseP.fuseCore_multi_eq h.vaA h.pairA.groupsOk
-  have hfB := FuseP.fuseCore_multi_eq h.vaB h.pairB.groupsOk
-  rw [n1] at hfA
-  rw [n2] at hfB
-  have hflow := tensordotViaFused_nonempty a b (freeAxes a.ndim xa) xa xb (freeAxes b.ndim xb)
-    hneL hneK h.neKb hneR hbl _ _ hfA hfB
-  have ht := h.tail_shape c
-  unfold cfOf at ht
-  rw [n1, n2] at ht
-  intro K V hl
-  have hs := ht (hflow.symm.trans hc0) K V hl
-  have gA0 : ([freeAxes (dropMisaligned a b xa xb).1.ndim xa, xa] : List (List Nat))[0]?
-      = some (freeAxes (dropMisaligned a b xa xb).1.ndim xa) := rfl
-  have gB1 : ([xb, freeAxes (dropMisaligned a b xa xb).2.ndim xb] : List (List Nat))[1]?
-      = some (freeAxes (dropMisaligned a b xa xb).2.ndim xb) := rfl
-  have lA := FuseP.groupM_lt h.pairA.groupsOk gA0
-  have lB := FuseP.groupM_lt h.pairB.groupsOk gB1
-  rw [n1] at lA
-  rw [n2] at lB
-  rw [without_eq_permuted_freeAxes, without_eq_permuted_freeAxes]
-  refine blockShape?_weaken (forall₂_append ?_ ?_) K _ hs
-  · exact permuted_dropUnused_sizeLe a.indices _ _ (fun x hx => by
-      have := lA x hx
-      rwa [show (dropMisaligned a b xa xb).1.indices.length = a.indices.length from n1] at this)
-  · exact permuted_dropUnused_sizeLe b.indices _ _ (fun x hx => by
-      have := lB x hx
-      rwa [show (dropMisaligned a b xa xb).2.indices.length = b.indices.length from n2] at this)
+theorem dropUnused_sizeLe (idx : List Index) (S : List Sector) :
+    List.Forall₂ SizeLe (dropUnused idx S) idx := by
+  have := permuted_dropUnused_sizeLe idx S (List.range idx.length) (fun x hx => List.mem_range.mp hx)
+  rw [permuted_range] at this
+  have e : permuted (dropUnused idx S) (List.range idx.length) = dropUnused idx S := by
+    have := permuted_range (dropUnused idx S)
+    rwa [dropUnused_length] at this
+  rwa [e] at this
 
 end TdotP
 end SymmModel
